@@ -5,6 +5,7 @@ From W.model Require Import Pool PoolSpec.
 From W.proofs Require Import PoolBase_proofs.
 From Coq Require Import Arith Lia ZifyNat ZifyN ZifyBool Sorting.Permutation.
 Local Open Scope nat_scope.
+Set Default Proof Using "All".
 
 Definition is_done (wk : worker) : bool := match w_st wk with WDone => true | _ => false end.
 Definition is_exited (wk : worker) : bool := match w_st wk with WDone | WExit => true | _ => false end.
@@ -102,13 +103,14 @@ Qed.
 
 Section Pool.
   Variable c : cfg.
-  Hypothesis Hbody : c_body c = bodyA \/ c_body c = bodyB.
-  Hypothesis Hinner : c_inner c = inner_prog.
-  Hypothesis Houter : c_outer c = outer_prog.
-  Hypothesis Hsel : c_select c = true.
-  Hypothesis Hw : 1 <= c_w c.
-  Hypothesis Hecap : c_w c <= c_ecap c.
-  Hypothesis Hccap : 1 <= c_ccap c.
+  Hypothesis Hok : cfg_ok c.
+  Let Hbody := ok_body c Hok.
+  Let Hinner := ok_inner c Hok.
+  Let Houter := ok_outer c Hok.
+  Let Hsel := ok_sel c Hok.
+  Let Hw := ok_w c Hok.
+  Let Hecap := ok_ecap c Hok.
+  Let Hccap := ok_ccap c Hok.
 
   Definition wf_w (wk : worker) : Prop :=
     match w_st wk with WBody pc _ => is_suffix pc (c_body c) /\ pc <> [] | _ => True end.
@@ -335,7 +337,7 @@ Section Pool.
           wfin.
       + inversion H; subst; clear H.
         destruct body_nonempty as (a0 & r0 & Eb0 & Ecs).
-        rewrite Eb0 in *. simpl next_st.
+        rewrite Eb0. simpl next_st.
         assert (Hwf0 : wf_w (mk_worker (WBody (a0 :: r0) b) trc tab)).
         { unfold wf_w; simpl. rewrite Eb0. split; [apply is_suffix_refl|discriminate]. }
         assert (Hcs0 : in_cs (mk_worker (WBody (a0 :: r0) b) trc tab) = false) by exact Ecs.
